@@ -30,7 +30,11 @@ def run(c):
         "(all 256 values thorough) at every position, every truncation, 3000 (100000) double mutations. Every decoded value is walked "
         "for well-formedness. Each Decode runs under recover and a 5 s watchdog in a supervised worker process (a hang or a dead "
         "process is a violation with the bytes as replay). Record level: 60 (3000 thorough) corruptions of "
-        "a persisted function-target record plus 48 (all) single-byte shape flips ) N ] -> N ] } True False EMPTY_SET ), each followed "
+        "a persisted function-target record, STRUCTURE-level mutants of its stamp that are still valid pickles (10 opcode splices — "
+        "SETITEMS of unknown / known keys, APPEND, ADDITEMS, stray MEMOIZE, TUPLE1 … — at every op boundary; value-tree mutants "
+        "re-encoded with the real encoder: element dropped / duplicated / swapped / replaced by None, int, str, list, tuple, dict; "
+        "entry added; key renamed; host object renamed to each dawn name; root wrapped) — all that still decode to a different "
+        "environment at the last three op boundaries, a seeded sample of 90 (thorough: all) of the rest — plus 48 (all) single-byte shape flips ) N ] -> N ] } True False EMPTY_SET ), each followed "
         "by Load+Run in a child process (a child without a result line — Go panic, fatal error, signal — is a crash violation). Non-trivial = Go answers ok; distinct by input.")
     c.prove()
     exe = pc.harness(c)
